@@ -48,6 +48,15 @@ EXPLANATION = (
     "`inputs[var]['sources'] = …`) in pyrates/ir/circuit.py lies on the branch of a dominating membership test where the "
     "variable has no entry yet, so registering an edge operator or a delay buffer never drops the same-node sources that "
     "OperatorGraph already registered.  "
+    "R9 ComputeGraph._sort_var_updates registers, for an lhs-indexing operation, the first argument of the indexing call as the "
+    "variable it defines (never a fixed position of the name-ordered input list).  "
+    "R10 wherever pyrates/ir/circuit.py emits an edge equation `index(u, IDX) = …` (an assignment through an index list, which "
+    "keeps only the last contribution per repeated index) with a per-edge index list, that list is duplicate-free by "
+    "construction (np.unique / set / range) or the equation is reachable only where a test len(unique(IDX)) vs len(IDX) of that "
+    "very list holds — directly or through a flag that can have the required value only there (flags derived from flags, "
+    "`or`-combined tests, guard in the caller of an extracted helper included).  "
+    "R4, R7, R3 and R10 look at functions with their private helpers spliced in (engine.inline) whenever the construct and its "
+    "guard may have been put into different functions; a construct is then judged at every call site.  "
     "R5 (state layout loops) is implemented as C12-R2 in rules/c12.py and registered here when that module provides it.  "
     "NOT decided: that the substituted input term is the right sum, the arithmetic of equations (C05), values of weights, "
     "index-role typing of weight matrices (C16), anything about run-time values."
@@ -631,19 +640,21 @@ def r3_grouping_key_determines_scalar_fields(ctx, rid):
     ctx.require(n >= 1, f"{rid}: no scalar-consumed group field found (the consumer's `group['source_var'].split(...)` vanished)")
 
 
-def _view(ctx, f):
-    """f with its private helpers spliced in (engine.inline); f itself when nothing was inlined or inlining is not possible."""
+def _view(ctx, f, keep=()):
+    """f with its private helpers spliced in (engine.inline); f itself when nothing was inlined or inlining is not possible.
+    `keep` = names of helpers that must stay calls (because the rule recognises them by role at the call)."""
     from engine.inline import inlined
     cache = ctx.__dict__.setdefault("_c01_views", {})
-    if f not in cache:
+    k = (f, tuple(sorted(keep)))
+    if k not in cache:
         try:
-            v = inlined(ctx, f)
-            cache[f] = v if getattr(v, "inlined_helpers", None) else f
+            v = inlined(ctx, f, keep=tuple(keep))
+            cache[k] = v if getattr(v, "inlined_helpers", None) else f
         except AnalysisError:
             raise
         except Exception:
-            cache[f] = f
-    return cache[f]
+            cache[k] = f
+    return cache[k]
 
 
 def _group_field_access(node: ast.AST, gvar: str) -> Optional[str]:
@@ -1841,6 +1852,11 @@ def _store_root(t: ast.AST) -> Optional[Tuple[ast.Name, ast.AST]]:
     return None
 
 
+def _same_defs(a, b) -> bool:
+    """Two lists of reaching definitions denote the same set (their order is an artefact of set iteration)."""
+    return {id(x) for x in a} == {id(x) for x in b}
+
+
 def _outcome_leading_to(cfg, d, st) -> Optional[bool]:
     """The outcome of the test of the dominating `if` d under which statement st can be reached without evaluating d again
     (st in the body, in the else branch, or behind a branch that leaves early: `if k in T: continue / return`).  None when
@@ -1891,7 +1907,7 @@ def _r7_stores(ctx, rid, f):
                     continue
                 for name, table, is_member in membership_facts(d.test, outcome):
                     if name == ktxt and table == I.id and not is_member:
-                        same = all(rd.defs_reaching_at(d, x) == rd.defs_reaching_at(cfg_st, x) for x in (ktxt, I.id))
+                        same = all(_same_defs(rd.defs_reaching_at(d, x), rd.defs_reaching_at(cfg_st, x)) for x in (ktxt, I.id))
                         if same:
                             absent = d
             if absent is None:
@@ -2157,8 +2173,18 @@ def _dup_test(ctx, f, test: ast.AST):
        ('mismatch', A, B)       len(unique(A)) is compared with the length of another list B: says nothing about duplicates
        None                     not such a test."""
     pol = True
-    while isinstance(test, ast.UnaryOp) and isinstance(test.op, ast.Not):
-        test, pol = test.operand, not pol
+    for _ in range(4):
+        while isinstance(test, ast.UnaryOp) and isinstance(test.op, ast.Not):
+            test, pol = test.operand, not pol
+        if isinstance(test, ast.Name):
+            # a local that holds the result of the test
+            defs = ctx.rd(f).defs_reaching(test)
+            v = assigned_value(defs[0], test.id) if len(defs) == 1 and not isinstance(defs[0], ast.arguments) else None
+            if v is None:
+                return None
+            test = v
+            continue
+        break
     if not (isinstance(test, ast.Compare) and len(test.ops) == 1):
         return None
 
@@ -2206,7 +2232,7 @@ def _dup_test(ctx, f, test: ast.AST):
     a, b = uniq[1], plain[1]
     if not (isinstance(a, ast.Name) and isinstance(b, ast.Name)):
         return None
-    if a.id != b.id or ctx.rd(f).defs_reaching(a) != ctx.rd(f).defs_reaching(b):
+    if a.id != b.id or not _same_defs(ctx.rd(f).defs_reaching(a), ctx.rd(f).defs_reaching(b)):
         return "mismatch", a.id, b.id
     return "dup", a.id, dup == pol
 
@@ -2256,7 +2282,7 @@ def _r10_sites(ctx, rid, f, indexers):
                  or all(isinstance(d, ast.arguments) for d in rd.defs_reaching(a))]
         if not lists:
             continue
-        out.append(dict(pos=(js.lineno, js.col_offset), node=js, stmt=st, idx=lists, unique=all(is_unique(a) for a in lists)))
+        out.append(dict(pos=(js.lineno, js.col_offset), node=js, stmt=st, idx=lists, unique=any(is_unique(a) for a in lists)))
     return out
 
 
@@ -2267,7 +2293,7 @@ def _r10_guard(ctx, rid, f, site):
     names = {a.id: a for a in site["idx"]}
 
     def same_value(nm, at) -> bool:
-        return rd.defs_reaching_at(at, nm) == rd.defs_reaching_at(st, nm)
+        return _same_defs(rd.defs_reaching_at(at, nm), rd.defs_reaching_at(st, nm))
 
     def distinct_when(node, target):
         """An `if` that dominates `target` and, on the outcome leading there, proves one of the index lists duplicate-free."""
@@ -2285,6 +2311,34 @@ def _r10_guard(ctx, rid, f, site):
     if g is not None:
         return "ok", f"dominated by `{_plain(norm(g))}` on the branch without duplicates"
     reasons = []
+
+    def flag_ok(name: str, want: bool, at, depth=0) -> Optional[ast.AST]:
+        """None when flag `name` can only have truth value `want` at statement `at` where an index list is known to be
+        duplicate-free; otherwise the definition that leaves this open."""
+        for fd in rd.defs_reaching_at(at, name):
+            v = assigned_value(fd, name) if not isinstance(fd, ast.arguments) else None
+            if isinstance(v, ast.Constant) and bool(v.value) != want:
+                continue                                    # this definition cannot lead to the equation
+            if not isinstance(fd, ast.arguments) and distinct_when(None, fd) is not None:
+                continue                                    # assigned only where the list is duplicate-free
+            if v is not None:
+                w, vv = want, v
+                while isinstance(vv, ast.UnaryOp) and isinstance(vv.op, ast.Not):
+                    vv, w = vv.operand, not w
+                if isinstance(vv, ast.Name) and depth < 4 and _dup_test(ctx, f, vv) is None:
+                    if flag_ok(vv.id, w, fd, depth + 1) is None:    # a flag derived from another flag
+                        continue
+                # flag false => no operand of `or` is true; flag true => every operand of `and` is true
+                parts = vv.values if isinstance(vv, ast.BoolOp) and isinstance(vv.op, ast.Or if not w else ast.And) else [vv]
+                hit = False
+                for part in parts:
+                    pt = _dup_test(ctx, f, part)
+                    if pt is not None and pt[0] == "dup" and pt[1] in names and same_value(pt[1], fd) and pt[2] == (not w):
+                        hit = True
+                if hit:
+                    continue
+            return fd
+        return None
     for d in cfg.dominators(st):
         if not isinstance(d, ast.If) or d is st:
             continue
@@ -2293,33 +2347,14 @@ def _r10_guard(ctx, rid, f, site):
             continue
         while isinstance(t, ast.UnaryOp) and isinstance(t.op, ast.Not):
             t, want = t.operand, not want
-        if not isinstance(t, ast.Name):
+        if not isinstance(t, ast.Name) or not rd.defs_reaching_at(d, t.id):
             continue
-        defs = rd.defs_reaching_at(d, t.id)
-        if not defs:
-            continue
-        open_defs = []
-        for fd in defs:
-            v = assigned_value(fd, t.id) if not isinstance(fd, ast.arguments) else None
-            if isinstance(v, ast.Constant) and bool(v.value) != want:
-                continue                                    # this definition cannot lead to the equation
-            if not isinstance(fd, ast.arguments) and distinct_when(None, fd) is not None:
-                continue                                    # assigned only where the list is duplicate-free
-            if v is not None:
-                parts = v.values if isinstance(v, ast.BoolOp) and isinstance(v.op, ast.Or if not want else ast.And) else [v]
-                hit = False
-                for part in parts:
-                    pt = _dup_test(ctx, f, part)
-                    # flag false => no operand of `or` is true => no duplicates; flag true => every operand of `and` is true
-                    if pt is not None and pt[0] == "dup" and pt[1] in names and same_value(pt[1], fd) and pt[2] == (not want):
-                        hit = True
-                if hit:
-                    continue
-            open_defs.append(fd)
-        if not open_defs:
-            return "ok", f"reached only through `{_plain(norm(d))}`, and `{t.id}` is {'false' if not want else 'true'} only when the index list is duplicate-free"
-        reasons.append(f"`{t.id}` may be {'false' if not want else 'true'} after `{_plain(norm(open_defs[0]))}` although nothing there says that "
-                       f"`{'` / `'.join(sorted(names))}` is free of duplicates")
+        open_def = flag_ok(t.id, want, d)
+        if open_def is None:
+            return "ok", (f"reached only through `{_plain(norm(d))}`, and `{t.id}` is {'false' if not want else 'true'} only when the index "
+                          f"list is duplicate-free")
+        reasons.append(f"`{t.id}` may be {'false' if not want else 'true'} after `{_plain(norm(open_def))}` although nothing there says that "
+                       f"`{'` / `'.join(sorted(_plain(x) for x in names))}` is free of duplicates")
     # anything that looks like a distinctness test but was not understood?
     for d in cfg.dominators(st):
         if isinstance(d, ast.If) and d is not st:
@@ -2344,8 +2379,9 @@ def r10_indexed_edge_assignment_needs_distinct_targets(ctx, rid):
     indexers = {g: ps for g, ps in indexers.items() if ps}
     ctx.require(indexers, f"{rid}: no helper that builds `index(var, idx)` text found in {IR}")
     seen: Dict[tuple, list] = {}
+    keep = tuple(sorted({g.name for g in indexers}))
     for f0 in funcs:
-        for fv in ([f0] if _view(ctx, f0) is f0 else [f0, _view(ctx, f0)]):
+        for fv in ([f0] if _view(ctx, f0, keep) is f0 else [f0, _view(ctx, f0, keep)]):
             for site in _r10_sites(ctx, rid, fv, indexers):
                 own = f0.node.lineno <= site["pos"][0] <= (f0.node.end_lineno or f0.node.lineno)
                 if fv is not f0 and own:
